@@ -526,6 +526,46 @@ func TearSweep(mp int) []Job {
 	return jobs
 }
 
+// TearPayloadSweep: the HEADER of a frame goes out whole and the trunk Write of its PAYLOAD sends
+// only k of its n bytes (k = 0..n-1) and fails with a transient error; the trunk itself keeps
+// working. The stream now ends in an orphan header (plus k payload bytes): the sender must be dead
+// from then on - a later Write on any connection would be read by the peer as the rest of the torn
+// frame - and the peer must see the frames sent before, then an error.
+func TearPayloadSweep(mp int) []Job {
+	var jobs []Job
+	for dir := 0; dir < 2; dir++ {
+		for _, n := range []int{1, 4, 9} {
+			for k := 0; k < n; k++ {
+				if n == 9 && k > 1 && k < 8 {
+					continue
+				}
+				g := newGen(rand.New(rand.NewSource(1)), mp, 4)
+				x, y := dir, 1-dir
+				hx := g.openConn(x, 5, "open")
+				hy := g.openConn(y, 5, "open")
+				hx2 := g.openConn(x, 6, "open")
+				hy2 := g.openConn(y, 6, "open")
+				g.write(x, hx, 3)
+				g.sync(x)
+				g.read(y, hy, 64, 64)
+				g.ops = append(g.ops, Op{Op: "tear", End: x, K: 8 + k})
+				// the torn write (not accounted as delivered)
+				g.ops = append(g.ops, Op{Op: "write", End: x, H: hx, Len: n, Seed: 77, Step: 1})
+				g.dead = true
+				g.write(x, hx2, 8)
+				g.write(x, hx, 5)
+				g.write(x, hx2, 2)
+				g.sync(x)
+				g.read(y, hy, 64, 64)
+				g.read(y, hy2, 64, 64)
+				g.aftermath(2)
+				jobs = append(jobs, Job{fmt.Sprintf("tearp-d%d-n%d-k%d", dir, n, k), g.script("tear-payload", true)})
+			}
+		}
+	}
+	return jobs
+}
+
 // IsolationScripts: frames for an id the receiver never opened are dropped — and must not
 // disturb the connections it has opened (the reader has to consume their payload).
 func IsolationScripts(mp int) []Job {
